@@ -62,7 +62,8 @@ TraceNext ==
          [] r.ev = "case"  -> /\ bad' = (IF CaseOk(r) THEN bad ELSE Append(bad, l + 1))
                               /\ tvse' = tvse
                               /\ UNCHANGED <<dvars, mode, wrap, wx>>
-         [] r.ev = "start" -> /\ dirs' = r.dirs
+         \* EnvFilter::new(s) = the directives of s, or the default directive `error` when s has none
+         [] r.ev = "start" -> /\ dirs' = (IF r.cfg = "E-new" /\ r.dirs = << >> THEN << [t |-> "", s |-> "", f |-> "", v |-> "", l |-> 1] >> ELSE r.dirs)
                               \* a Targets that accepted span syntax is judged as the EnvFilter it claims to agree with
                               /\ kind' = (IF r.kind = "targets" /\ r.tv THEN "env" ELSE r.kind)
                               /\ mode' = (IF r.kind = "targets" /\ r.tv THEN "tvse" ELSE "normal")
